@@ -2,11 +2,16 @@
 Seeded generator for rewrite scenarios (modules + edit sets), shared by
 C01-C09 and C11.  Produces JSON-serialisable case descriptions.
 """
+import os
+
 from . import vocab
 
 ORD_KEYS = ["nop", "push_rax", "pop_rax", "push_rbx", "pop_rbx", "mov_rr",
             "xor", "add"]
 SYM_KEYS = ["lea_sym", "mov_sym", "cmp_sym", "movi_sym"]
+# in patches also pc-relative literal loads (ARM64), whose fixup expression
+# is a plain "symbol + constant"
+PATCH_SYM_KEYS = SYM_KEYS + ["ldr_lit", "ldrsw_lit"]
 TERMS = ["none", "jmp", "jcc", "call", "ret", "ijmp", "icall", "halt",
          "syscall"]
 TERM_W = [30, 12, 12, 14, 14, 5, 5, 8, 4]
@@ -122,12 +127,30 @@ class Gen:
                       for l in b["labels"] + b["elabels"]] + case["externs"]
         func_labels = [f["name"] for f in funcs]
         # --- instructions
+        empties = set()
+        if rng.random() < self.knobs.get(
+                "empty_blocks_p", float(os.environ.get("VT_EMPTY", "0.12"))):
+            # (two zero-sized blocks at one address have no order in the IR,
+            # and a function does not start with one)
+            cand = [b for b in code_blocks[:-1]
+                    if b is not blocks[0] and
+                    not any(b["id"] in f["entries"] for f in funcs)]
+            for b in rng.sample(cand, min(len(cand), rng.choice([1, 1, 2]))):
+                k = blocks.index(b)
+                if not any(0 <= j < len(blocks) and
+                           blocks[j]["id"] in empties
+                           for j in (k - 1, k + 1)):
+                    empties.add(b["id"])
         for b in code_blocks:
             n = rng.choice([0, 1, 1, 2, 2, 3, 4])
             term = rng.choices(TERMS, TERM_W)[0]
             if term in ("jmp", "jcc") and not code_labels:
                 term = "none"
-            if n == 0 and term == "none":
+            if b["id"] in empties:
+                # a zero-sized code block, as an earlier rewrite leaves them
+                # behind; it falls through to the next block
+                n, term = 0, "none"
+            elif n == 0 and term == "none":
                 n = 1
             for _ in range(n):
                 if rng.random() < 0.25 and any_labels:
@@ -239,6 +262,10 @@ class Gen:
         n = min(len(blocks), rng.choice([1, 1, 1, 2, 2, 3]))
         cuts = sorted(rng.sample(range(1, len(blocks)), n - 1)) if n > 1 \
             else []
+        # (gtirb_layout cannot place an interval that starts with a
+        # zero-sized block falling through to the block at the same offset)
+        cuts = [c for c in cuts
+                if not blocks[c]["code"] or blocks[c]["items"]]
         ivs = []
         prev = 0
         for c in cuts + [len(blocks)]:
@@ -308,9 +335,13 @@ class Gen:
                 lines.append({"k": rng.choice(ORD_KEYS)})
             elif r < 0.65 and self.any_labels:
                 lines.append({"k": rng.choice(
-                    [k for k in SYM_KEYS
+                    [k for k in PATCH_SYM_KEYS
                      if k in vocab.VOCAB[self.case["isa"]]]),
                     "t": rng.choice(self.any_labels + own)})
+                if rng.random() < 0.3:
+                    # (the assembler refuses "symbol - constant":
+                    # UnsupportedAssemblyError)
+                    lines[-1]["add"] = rng.choice([4, 8, 16, 64])
             elif r < 0.75:
                 nm = labels_here[1] if labels_here[1] not in own else None
                 if nm:
@@ -410,6 +441,9 @@ class Gen:
             b = rng.choice(blocks if rng.random() < 0.2
                            else (self.code_blocks or blocks))
             nitems = len(b["items"])
+            if not nitems:
+                # the library does not modify zero-sized blocks
+                continue
             op = rng.choices(["ins", "rep", "del", "delall", "delproxy",
                               "delfn"], [45, 15, 15, 10, 8, 7])[0]
             if op == "delfn":
@@ -509,8 +543,10 @@ class Gen:
         sites = [b for b in self.code_blocks if b["items"] and
                  b["items"][-1].get("k") == "call" and
                  b["items"][-1].get("t") == fname]
-        others = [b for b in self.code_blocks if b not in sites]
-        members = [b for b in self.code_blocks if b["id"] in f["blocks"]]
+        others = [b for b in self.code_blocks if b not in sites and
+                  b["items"]]
+        members = [b for b in self.code_blocks if b["id"] in f["blocks"] and
+                   b["items"]]
         plans = []
         for b in rng.sample(sites, min(len(sites), rng.choice([1, 1, 2]))):
             plans.append((b, rng.choice(["after-call", "after-call",
